@@ -21,10 +21,10 @@ Record case := {
 
 (* ---- the specification side: plain per-key arithmetic on the inputs, no trie involved ------- *)
 Definition spec_val (ops : list op) (k : bytes) : N :=
-  fold_left (fun acc o => if beqb (fst (fst o)) k
+  fold_left (fun (acc : N) (o : op) => if beqb (fst (fst o)) k
                           then (if snd o then acc + snd (fst o) else snd (fst o))
                           else acc) ops 0.
-Definition op_keys (ops : list op) : list bytes := map (fun o => fst (fst o)) ops.
+Definition op_keys (ops : list op) : list bytes := map (fun o : op => fst (fst o)) ops.
 
 Definition kv_get (k : bytes) (l : kvs) : N :=
   sumN (map snd (filter (fun kv => beqb (fst kv) k) l)).
@@ -36,7 +36,7 @@ Fixpoint keys_nodup (l : list bytes) : bool :=
 (* l reports exactly the positive values of g, each key once *)
 Definition reports (l : kvs) (g : bytes -> N) (universe : list bytes) : bool :=
   keys_nodup (map fst l)
-  && forallb (fun kv => (0 <? snd kv) && N.eqb (snd kv) (g (fst kv))) l
+  && forallb (fun kv => N.ltb 0 (snd kv) && N.eqb (snd kv) (g (fst kv))) l
   && forallb (fun k => N.eqb (kv_get k l) (g k)) universe.
 
 Definition kv_eqb (a b : bytes * N) : bool := beqb (fst a) (fst b) && N.eqb (snd a) (snd b).
@@ -49,7 +49,7 @@ Definition okvs_eqb (a b : option kvs) : bool :=
   end.
 
 Definition nonempty (k : bytes) : bool := negb (is_nil k).
-Definition all_merge (ops : list op) : bool := forallb (fun o => snd o) ops.
+Definition all_merge (ops : list op) : bool := forallb (fun o : op => snd o) ops.
 
 Definition m_scaled (m d : N) (t : ttnode) : option kvs :=
   match tt_deserialize (tt_serialize m d t) with
@@ -59,7 +59,7 @@ Definition m_scaled (m d : N) (t : ttnode) : option kvs :=
 
 Definition check_case (c : case) : verdict :=
   let cur := c_cur c in let prev := c_prev c in
-  let keys := op_keys cur ++ op_keys prev ++ map fst (c_diff_iter c) in
+  let keys := (op_keys cur ++ op_keys prev ++ map fst (c_diff_iter c))%list in
   let sc := spec_val cur in let sp := spec_val prev in
   let want_diff := fun k => sc k - sp k in                   (* N subtraction is clipped at 0 *)
   let mcur := tt_build cur in let mprev := tt_build prev in
